@@ -58,6 +58,9 @@ func runC06(p *eng.Prog, r *eng.Report, tier string) {
 	registrationWithdrawn(c, "C06.8", "receipts.Handler.sent", 1)
 	registrationWithdrawn(c, "C06.8", "ibb.Listener.expected", 1)
 	goroutineEndsItsTracking(c, "C06.22")
+	c18RegisteredBeforeQueued(c, "C06.24")
+	c15OnlyOwnRouteWithdrawn(c, "C06.25")
+	attrGetNotUsed(c, "C06.23")
 	// C06.7 a hand-off record queued for the handler is taken back when the call fails
 	handoffWithdrawn(c, "C06.7", "muc", "(*Channel).JoinPresence", "muc.Channel.join")
 	// lock discipline of the waiter tables
